@@ -597,6 +597,39 @@ def _from_elem(w, st, fr, path, targs, args, dty):
     return SymArr(name, ety, n)
 
 
+@builtin("alloc::vec::Vec::<T>::new")
+def _vec_new(w, st, fr, path, targs, args, dty):
+    ety = targs[0] if targs else ("int", 8, False, False)
+    return SymArr("vec%d" % len(st.trace), ety, K(0, 64))
+
+
+@builtin("alloc::vec::Vec::<T, A>::clear")
+def _vec_clear(w, st, fr, path, targs, args, dty):
+    a = args[0]
+    if not isinstance(a, Ref):
+        return NOT_HANDLED
+    v = w.load(st, a.obj, a.proj)
+    ety = v.ety if isinstance(v, SymArr) else (targs[0] if targs else ("int", 8, False, False))
+    w.store_to(st, a.obj, a.proj, SymArr("vec%d" % len(st.trace), ety, K(0, 64)))
+    return UNIT
+
+
+@builtin("alloc::vec::Vec::<T, A>::resize")
+def _vec_resize(w, st, fr, path, targs, args, dty):
+    """v.resize(n, x): the vector has n elements afterwards (an allocation of n elements, recorded like vec![x; n] so that
+    the allocation rules see it); when it was empty before, every element is x — the contents are not tracked, as for
+    from_elem"""
+    a, n = args[0], args[1]
+    if not (isinstance(a, Ref) and isinstance(n, T)):
+        return NOT_HANDLED
+    v = w.load(st, a.obj, a.proj)
+    ety = v.ety if isinstance(v, SymArr) else (targs[0] if targs else ("int", 8, False, False))
+    from .walk import Effect
+    st.trace.append(Effect("alloc::vec::from_elem", (args[2] if len(args) > 2 else None, n), None, None, fr.fn.path, len(st.frames)))
+    w.store_to(st, a.obj, a.proj, SymArr("vec%d" % len(st.trace), ety, n))
+    return UNIT
+
+
 @builtin("alloc::vec::Vec::<T, A>::len", "alloc::vec::Vec::<T>::len")
 def _vec_len(w, st, fr, path, targs, args, dty):
     a = args[0]
